@@ -1,6 +1,167 @@
+/-
+  C09 — Count → frequency → weight → log-odds conversions obey their definitions.
+-/
 import LMV.Model.Pwm
+import LMV.Model.Abc
+
 namespace LMV
 namespace C09
-theorem placeholder : True := trivial
+
+open Pwm
+
+/-! ### (1) counting (Nat) -/
+
+section counting
+variable {K : Nat}
+
+/-- number of sequences having symbol `a` at position `i` -/
+def colCount (seqs : List (List Nat)) (i a : Nat) : Nat :=
+  (seqs.filter fun s => s[i]? == some a).length
+
+/-- the common length `from_sequences` commits to: the length of the first sequence -/
+def firstLen : List (List Nat) → Nat
+  | [] => 0
+  | s :: _ => s.length
+
+theorem addSeq_rows (d : Mat Nat K) (i : Nat) (xs : List Nat) : (addSeq d i xs).rows = d.rows := by
+  induction xs generalizing d i with
+  | nil => rfl
+  | cons x xs ih => simp [addSeq, ih]
+
+/-- one sequence adds one to the cell of each of its symbols and to no other cell -/
+theorem addSeq_get (d : Mat Nat K) (i : Nat) (xs : List Nat) (r a : Nat)
+    (hx : ∀ x ∈ xs, x < K) (hlen : i + xs.length ≤ d.rows) (ha : a < K) :
+    (addSeq d i xs).get r a = d.get r a + (if i ≤ r ∧ xs[r - i]? = some a then 1 else 0) := by
+  induction xs generalizing d i with
+  | nil => simp [addSeq]
+  | cons x xs ih =>
+    simp only [addSeq]
+    have hxK : x < K := hx x (by simp)
+    have hi : i < d.rows := by simp at hlen; omega
+    rw [ih _ _ (fun y hy => hx y (by simp [hy])) (by simp at hlen ⊢; omega)]
+    simp only [Mat.get_set]
+    by_cases h1 : r = i
+    · subst h1
+      have : ¬ (r + 1 ≤ r) := by omega
+      by_cases h2 : a = x
+      · subst h2; simp [hi, ha, this]
+      · have h3 : ¬ x = a := fun h => h2 h.symm
+        simp [h2, h3, this]
+    · by_cases h2 : i + 1 ≤ r
+      · have h3 : i ≤ r := by omega
+        have h4 : r - i = (r - (i + 1)) + 1 := by omega
+        simp [h1, h2, h3, h4]
+      · have h3 : ¬ i ≤ r := by omega
+        simp [h1, h2, h3]
+
+theorem colCount_cons (s : List Nat) (rest : List (List Nat)) (i a : Nat) :
+    colCount (s :: rest) i a = (if s[i]? = some a then 1 else 0) + colCount rest i a := by
+  unfold colCount
+  rw [List.filter_cons]
+  by_cases h : s[i]? = some a
+  · simp [h]; omega
+  · simp [h]
+
+/-- the loop of `from_sequences` once the matrix exists: accepted iff every remaining sequence
+    has `d.rows` symbols; the counts of the accepted sequences are added cell by cell -/
+theorem loop_some_ok (d : Mat Nat K) (n : Nat) (seqs : List (List Nat))
+    (hlen : ∀ s ∈ seqs, s.length = d.rows) :
+    ∃ d', fromSeqsLoop (some d) n seqs = .ok (some d', n + seqs.length) ∧ d'.rows = d.rows ∧
+      ((∀ s ∈ seqs, ∀ x ∈ s, x < K) →
+        ∀ r a, a < K → d'.get r a = d.get r a + colCount seqs r a) := by
+  induction seqs generalizing d n with
+  | nil => exact ⟨d, by simp [fromSeqsLoop], rfl, fun _ r a _ => by simp [colCount]⟩
+  | cons s rest ih =>
+    have hs : s.length = d.rows := hlen s (by simp)
+    have ⟨d', h1, h2, h3⟩ := ih (addSeq d 0 s) (n + 1)
+      (fun t ht => by rw [addSeq_rows]; exact hlen t (by simp [ht]))
+    refine ⟨d', ?_, by rw [h2, addSeq_rows], ?_⟩
+    · simp only [fromSeqsLoop, hs, ne_eq, not_true_eq_false, if_false]
+      rw [h1]; simp; omega
+    · intro hsym r a ha
+      rw [h3 (fun t ht => hsym t (by simp [ht])) r a ha,
+        addSeq_get d 0 s r a (hsym s (by simp)) (by omega) ha, colCount_cons]
+      simp; omega
+
+theorem loop_some_err (d : Mat Nat K) (n : Nat) (seqs : List (List Nat))
+    (h : ∃ s ∈ seqs, s.length ≠ d.rows) : fromSeqsLoop (some d) n seqs = .error () := by
+  induction seqs generalizing d n with
+  | nil => simp at h
+  | cons s rest ih =>
+    by_cases hs : s.length = d.rows
+    · simp only [fromSeqsLoop, hs, ne_eq, not_true_eq_false, if_false]
+      apply ih
+      rcases h with ⟨t, ht, hne⟩
+      rw [addSeq_rows]
+      rcases List.mem_cons.mp ht with rfl | ht'
+      · exact absurd hs hne
+      · exact ⟨t, ht', hne⟩
+    · simp [fromSeqsLoop, hs]
+
+theorem loop_none_cons (n : Nat) (s : List Nat) (rest : List (List Nat)) :
+    fromSeqsLoop (K := K) none n (s :: rest)
+      = fromSeqsLoop (some ((Mat.empty : Mat Nat K).resize s.length 0)) n (s :: rest) := by
+  simp [fromSeqsLoop]
+
+/-- **counting**: equal-length sequences are accepted, the matrix has one row per position,
+    `sequence_count` is the number of sequences and entry `(i, a)` is the number of sequences with
+    symbol `a` at position `i` -/
+theorem fromSequences_ok (seqs : List (List Nat)) (hsym : ∀ s ∈ seqs, ∀ x ∈ s, x < K)
+    (hlen : ∀ s ∈ seqs, s.length = firstLen seqs) :
+    ∃ c, fromSequences (K := K) seqs = .ok c ∧ c.n = seqs.length ∧ c.data.rows = firstLen seqs ∧
+      ∀ i a, i < firstLen seqs → a < K → c.data.get i a = colCount seqs i a := by
+  cases seqs with
+  | nil => exact ⟨⟨Mat.empty, 0⟩, by simp [fromSequences, fromSeqsLoop], rfl, rfl, fun i a hi => by simp [firstLen] at hi⟩
+  | cons s rest =>
+    have ⟨d', h1, h2, h3⟩ := loop_some_ok ((Mat.empty : Mat Nat K).resize s.length 0) 0 (s :: rest)
+      (fun t ht => by rw [Mat.rows_resize]; exact hlen t ht)
+    refine ⟨⟨d', (s :: rest).length⟩, ?_, rfl, by rw [h2]; simp [firstLen], ?_⟩
+    · unfold fromSequences
+      rw [loop_none_cons, h1]; simp
+    · intro i a hi ha
+      rw [h3 hsym i a ha]
+      simp [firstLen] at hi
+      simp [hi, ha]
+
+/-- **unequal lengths are rejected** (`InvalidData`) -/
+theorem fromSequences_err (seqs : List (List Nat)) (h : ∃ s ∈ seqs, s.length ≠ firstLen seqs) :
+    fromSequences (K := K) seqs = .error () := by
+  cases seqs with
+  | nil => simp at h
+  | cons s rest =>
+    unfold fromSequences
+    rw [loop_none_cons, loop_some_err _ _ _ (by simpa [firstLen] using h)]
+
+/-- acceptance is exactly "all sequences have the same length" -/
+theorem fromSequences_ok_iff (seqs : List (List Nat)) :
+    (∃ c, fromSequences (K := K) seqs = .ok c) ↔ ∀ s ∈ seqs, s.length = firstLen seqs := by
+  constructor
+  · intro ⟨c, hc⟩
+    apply Classical.byContradiction
+    intro hn
+    have : ∃ s ∈ seqs, s.length ≠ firstLen seqs := by
+      simpa [Classical.not_forall] using hn
+    rw [fromSequences_err seqs this] at hc
+    cases hc
+  · intro h
+    cases seqs with
+    | nil => exact ⟨⟨Mat.empty, 0⟩, by simp [fromSequences, fromSeqsLoop]⟩
+    | cons s rest =>
+      have ⟨d', h1, _, _⟩ := loop_some_ok ((Mat.empty : Mat Nat K).resize s.length 0) 0 (s :: rest)
+        (fun t ht => by rw [Mat.rows_resize]; exact h t ht)
+      exact ⟨⟨d', (s :: rest).length⟩, by unfold fromSequences; rw [loop_none_cons, h1]; simp⟩
+
+/- non-vacuity: three DNA sequences of length 2 (counted), and a set with a shorter one (rejected) -/
+example :
+    (match fromSequences (K := 5) [[0, 1], [0, 3], [2, 1]] with
+      | .ok c => c.n == 3 && c.data.rows == 2 && c.data.get 0 0 == 2 && c.data.get 1 1 == 2 &&
+          c.data.get 1 3 == 1
+      | .error _ => false) = true ∧
+    colCount [[0, 1], [0, 3], [2, 1]] 0 0 = 2 ∧
+    (match fromSequences (K := 5) [[0, 1], [0], [2, 1]] with | .ok _ => false | .error _ => true) = true := by
+  decide +kernel
+
+end counting
+
 end C09
 end LMV
